@@ -21,6 +21,11 @@ import (
 //   errnos             CASE-not-found and SIGNAL default error numbers
 //   callLoop           Call: initial counter, termination test
 //   declareZero        DECLARE without DEFAULT goes through NewVariable → typ.Zero()
+//   handlerSelect      handleError: condition case ↦ what the selection loop does for it
+//   handlerRun         handleError: which op of the handler statement's code is executed
+//   handlerActions     handleError: CONTINUE result; EXIT scan (start, bound, step, op ↦ counter action, result)
+//   handlerCallBranch  Call: how the error branch turns handleError's result into the next counter
+//   listHandlersLoop   ListHandlers: iteration order over the scope stack
 
 func squash(s string) string { return strings.Join(strings.Fields(s), "") }
 
@@ -392,5 +397,101 @@ func extract(a hx.ExtractArgs) error {
 		return err
 	}
 	lf.DefString("newVariableBody", squash(stackSrc.Text(nv.Body)))
+	// 11. DECLARE … HANDLER: handleError, the error branch of Call, ListHandlers
+	he, err := logicSrc.Func("", "handleError")
+	if err != nil {
+		return err
+	}
+	var selFacts, actFacts []string
+	runFact := ""
+	ast.Inspect(he.Body, func(n ast.Node) bool {
+		switch x := n.(type) {
+		case *ast.SwitchStmt:
+			tag := squash(logicSrc.Text(x.Tag))
+			for _, st := range x.Body.List {
+				cc := st.(*ast.CaseClause)
+				var body []string
+				for _, b := range cc.Body {
+					body = append(body, squash(logicSrc.Text(b)))
+				}
+				name := strings.TrimPrefix(caseTypeName(logicSrc, cc), "ast.")
+				switch tag {
+				case "handler.Condition":
+					selFacts = append(selFacts, name+":"+strings.Join(body, ";"))
+				case "matchingHandler.Action":
+					if name != "DeclareHandlerAction_Exit" {
+						actFacts = append(actFacts, name+":"+strings.Join(body, ";"))
+						continue
+					}
+					for _, b := range cc.Body {
+						switch y := b.(type) {
+						case *ast.ForStmt:
+							parts := []string{"init:" + squash(logicSrc.Text(y.Init)), "cond:" + squash(logicSrc.Text(y.Cond)), "post:" + squash(logicSrc.Text(y.Post))}
+							ast.Inspect(y.Body, func(m ast.Node) bool {
+								switch z := m.(type) {
+								case *ast.IfStmt:
+									parts = append(parts, "if:"+squash(logicSrc.Text(z.Cond))+"⇒"+squash(logicSrc.Text(z.Body.List[0])))
+								case *ast.CaseClause:
+									if z.List != nil && len(z.Body) > 0 {
+										parts = append(parts, caseTypeName(logicSrc, z)+"→"+squash(logicSrc.Text(z.Body[0])))
+									}
+								}
+								return true
+							})
+							actFacts = append(actFacts, name+":for:"+strings.Join(parts, ";"))
+						case *ast.ReturnStmt:
+							actFacts = append(actFacts, name+":"+squash(logicSrc.Text(y)))
+						case *ast.AssignStmt:
+							actFacts = append(actFacts, name+":"+squash(logicSrc.Text(y)))
+						}
+					}
+				}
+			}
+		case *ast.CallExpr:
+			if squash(logicSrc.Text(x.Fun)) == "execOp" && len(x.Args) == 7 {
+				runFact = "op=" + squash(logicSrc.Text(x.Args[3])) + ";code=" + squash(logicSrc.Text(x.Args[4])) + ";counter=" + squash(logicSrc.Text(x.Args[6]))
+			}
+		}
+		return true
+	})
+	if len(selFacts) == 0 || len(actFacts) == 0 || runFact == "" {
+		return fmt.Errorf("handleError: expected shape not found (selection switch / action switch / execOp call)")
+	}
+	lf.DefStringList("handlerSelect", selFacts)
+	lf.DefString("handlerRun", runFact)
+	lf.DefStringList("handlerActions", actFacts)
+	callBranch := ""
+	ast.Inspect(callFn.Body, func(n ast.Node) bool {
+		is, ok := n.(*ast.IfStmt)
+		if ok && squash(logicSrc.Text(is.Cond)) == "hErr==io.EOF" && is.Else != nil {
+			callBranch = squash(logicSrc.Text(is.Body)) + "else" + squash(logicSrc.Text(is.Else))
+		}
+		return true
+	})
+	if callBranch == "" {
+		return fmt.Errorf("Call: error branch `if hErr == io.EOF {…} else {…}` not found")
+	}
+	lf.DefString("handlerCallBranch", callBranch)
+	lh, err := stackSrc.Func("InterpreterStack", "ListHandlers")
+	if err != nil {
+		return err
+	}
+	lhLoop := ""
+	ast.Inspect(lh.Body, func(n ast.Node) bool {
+		if f, ok := n.(*ast.ForStmt); ok && lhLoop == "" {
+			lhLoop = squash(stackSrc.Text(f.Init)) + ";" + squash(stackSrc.Text(f.Cond)) + ";" + squash(stackSrc.Text(f.Post))
+			ast.Inspect(f.Body, func(m ast.Node) bool {
+				if r, ok := m.(*ast.RangeStmt); ok {
+					lhLoop += ";range:" + squash(stackSrc.Text(r.X))
+				}
+				return true
+			})
+		}
+		return true
+	})
+	if lhLoop == "" {
+		return fmt.Errorf("ListHandlers: loop not found")
+	}
+	lf.DefString("listHandlersLoop", lhLoop)
 	return lf.Write(a.Out)
 }
